@@ -220,30 +220,51 @@ func c30Build(c c30Case) (env Envelope, raw []byte, stored []byte, storeErr erro
 	return
 }
 
-// c30Allowed decides, independently of the code under test, whether handing out payload p
-// is permitted by the envelope (and why not).
-func c30Allowed(env Envelope, p []byte, maxSize int64) (bool, string) {
+const c30KnownNone = "C30-alg-none-skips-declared-sha256"
+
+// c30AllowedRaw decides, independently of the code under test, whether handing out payload p
+// is permitted by the envelope (and why not). noneSha reports that the only reason is:
+// checksum_alg is "none" but the payload fails the sha256 the envelope declares.
+func c30AllowedRaw(env Envelope, p []byte, maxSize int64) (ok bool, why string, noneSha bool) {
 	norm, valid := c30NormAlg(env.ChecksumAlg)
 	if !valid {
-		return false, "unsupported checksum algorithm " + strconv.Quote(env.ChecksumAlg) + " must be rejected"
+		return false, "unsupported checksum algorithm " + strconv.Quote(env.ChecksumAlg) + " must be rejected", false
 	}
 	if maxSize > 0 && int64(len(p)) > maxSize {
-		return false, fmt.Sprintf("payload of %d bytes exceeds MaxSize %d", len(p), maxSize)
+		return false, fmt.Sprintf("payload of %d bytes exceeds MaxSize %d", len(p), maxSize), false
 	}
 	if norm == "none" {
-		return true, ""
+		// "none" means the producer asked for no EXTRA checksum; the mandatory sha256 field is
+		// still a checksum the envelope declares
+		if env.SHA256 != "" {
+			if got := c30Digest("sha256", p); !strings.EqualFold(got, env.SHA256) {
+				return false, fmt.Sprintf("checksum_alg is none but the envelope declares sha256 %s and the payload hashes to %s", env.SHA256, got), true
+			}
+		}
+		return true, "", false
 	}
 	alg, declared := norm, env.Checksum
 	if declared == "" {
 		alg, declared = "sha256", env.SHA256
 	}
 	if declared == "" {
-		return true, ""
+		return true, "", false
 	}
 	if got := c30Digest(alg, p); !strings.EqualFold(got, declared) {
-		return false, fmt.Sprintf("%s digest of the payload is %s but the envelope declares %s", alg, got, declared)
+		return false, fmt.Sprintf("%s digest of the payload is %s but the envelope declares %s", alg, got, declared), false
 	}
-	return true, ""
+	return true, "", false
+}
+
+// c30Allowed applies the oracle; the predicate of the listed finding (alg none + payload failing
+// the declared sha256) is excluded only while it is listed.
+func c30Allowed(st *vfkit.Stats, env Envelope, p []byte, maxSize int64) (bool, string) {
+	ok, why, noneSha := c30AllowedRaw(env, p, maxSize)
+	if !ok && noneSha && vfkit.Known(c30KnownNone) {
+		st.ExcludedCase(c30KnownNone)
+		return true, ""
+	}
+	return ok, why
 }
 
 // c30RunReaders drives every reader over one case; returns a violation text or "".
@@ -258,7 +279,7 @@ func c30RunReaders(st *vfkit.Stats, c c30Case) string {
 		if !bytes.Equal(payload, stored) {
 			return fmt.Sprintf("%s returned %d bytes that are not what storage returned (%d bytes)", who, len(payload), len(stored))
 		}
-		if ok, why := c30Allowed(env, payload, limit); !ok {
+		if ok, why := c30Allowed(st, env, payload, limit); !ok {
 			return fmt.Sprintf("%s returned a blob although %s (case %+v, envelope %s)", who, why, c, raw)
 		}
 		return ""
@@ -433,4 +454,35 @@ func TestVF_C30_ReadersEnum(t *testing.T) {
 		}
 	}
 	st.Note("enumerated", "blobs x algs x checksum kinds x sha256 kinds x storage outcomes x MaxSize kinds x declared size ok/wrong")
+}
+
+// TestVF_C30_WitnessLfs replays the witness of the listed reader finding.
+func TestVF_C30_WitnessLfs(t *testing.T) {
+	st := vfkit.NewStats("C30", "witness-lfs")
+	defer st.Flush()
+	st.Eval()
+	blob := []byte("the bytes the producer uploaded")
+	env := Envelope{Version: 1, Bucket: "bkt", Key: "default/topic/lfs/2026/01/02/obj-w", Size: int64(len(blob)), SHA256: c30Digest("sha256", blob), ChecksumAlg: "none"}
+	raw, err := EncodeEnvelope(env)
+	if err != nil {
+		t.Fatalf("encode: %v", err)
+	}
+	tampered := []byte("an object somebody put there later")
+	res, _, rerr := NewResolver(ResolverConfig{ValidateChecksum: true}, &c30Store{body: tampered}).Resolve(context.Background(), raw)
+	_, blob2, cerr := NewConsumer(&c30Store{body: tampered}, WithChecksumValidation(true)).Unwrap(context.Background(), raw)
+	still := false
+	what := ""
+	if rerr == nil {
+		if ok, why, _ := c30AllowedRaw(env, res.Payload, 0); !ok {
+			still, what = true, "Resolver: "+why
+		}
+	}
+	if cerr == nil && blob2 != nil {
+		if ok, why, _ := c30AllowedRaw(env, blob2, 0); !ok {
+			still, what = true, what+" Consumer: "+why
+		}
+	}
+	st.NonTrivial("witness-none")
+	st.Sample(map[string]any{"envelope": string(raw), "stored": string(tampered), "resolver_err": fmt.Sprint(rerr), "consumer_err": fmt.Sprint(cerr)})
+	st.KnownResult(c30KnownNone, still, "checksum_alg none + sha256 declared, object replaced -> "+what)
 }
